@@ -52,7 +52,13 @@ def declare(E):
         "remote_kex_init": "opt[bytes]", "_kex_info": "opaque:KexTable", "server_key_dict": "opaque:KeyDictS",
         "_modulus_pack": "opt[opaque:ModPack]", "gss_kex_used": "bool", "in_kex": "bool", "local_kex_init": "opt[bytes]",
         "_latest_kex_init": "opt[bytes]", "clear_to_send_lock": "opaque:Lock", "clear_to_send": "opaque:Event",
+        "disabled_algorithms": "opaque:DisabledMap",
     })
+    # the raw configuration behind the preferred_* lists (the code under contract reads the filtered lists; a change that
+    # goes back to the raw table is then still within the subset and is judged by the same postconditions)
+    E.contract("DisabledMap.get", argnames=["self", "k", "default"], returns="opaque:NameList")
+    E.contract("KeyDictS.__contains__", argnames=["self", "x"], returns="bool",
+               cases=[dict(name="membership", when="True", result="fn('in_list', 'bool', fn('own_key_types', 'int'), x)")])
     for c in CATS:
         # the local preference list of a category, as filtered by disabled_algorithms: a function of the configuration
         E.contract(T + "preferred_" + c, returns="opaque:NameList",
